@@ -2,12 +2,12 @@
    AST on every run) are the expressions the hand-written model uses.  Every lemma is an obligation of the tie: when an
    expression of the code changes, the generated file changes with it and the lemma stops compiling even if no sampled input
    tells old and new behaviour apart.  Statements: the model's definition equals the translated expression, for all arguments. *)
-From Aldy Require Import Base Consts MinorModel Exprs_cov.
+From Aldy Require Import Base Consts MinorModel Exprs_cov TieTac.
 Import List.
 Open Scope Q_scope.
 
 (* coverage.py single_copy as used by the minor model *)
 Lemma single_copy_minor_tied : forall cov total pcn, Qltb 0 pcn = true ->
-  MinorModel.obs cov total pcn = (cov / single_copy_val total pcn)%Q.
-Proof. intros cov total pcn H. unfold MinorModel.obs. rewrite H. reflexivity. Qed.
+  (MinorModel.obs cov total pcn == cov / single_copy_val total pcn)%Q.
+Proof. first [intros cov total pcn H; unfold MinorModel.obs; rewrite H; reflexivity | intros cov total pcn H; unfold MinorModel.obs, single_copy_val; rewrite H; tie_q]. Qed.
 
